@@ -1,10 +1,17 @@
 import RV.Proofs.SketchRow
+import RV.Proofs.TinyLFU
 /-!
 # C18 — Access-frequency estimates never under-count, saturate, and age by halving
 
 Property theorems only (helper lemmas live in `RV/Proofs`).  Every arithmetic
-kernel mentioned here (`rowGet`, `rowIncrement`, `rowReset`, `rowClear`) is
-*generated* from sketch.go by go2lean on every run.
+kernel mentioned here (`rowGet`, `rowIncrement`, `rowReset`, `rowClear`, `next2Power`,
+`incrIndex`/`estIndex`, `estLess`/`estInit`, `sketchMask`, `rowLen`, the reset trigger
+`Gen.TinyLFU.resetCond` and all doorkeeper kernels of `Gen.Bloom`) is *generated* from
+sketch.go / policy.go / z/bbloom.go by go2lean on every run.
+
+Three layers: single counters of a row (first block), the 4-row sketch (`sketch_*`,
+`next2power_spec`, `sketch_size`), and TinyLFU = sketch + doorkeeper + reset counter
+(`est_*`, `reset_spec`, `clear_spec`, `reset_period`).
 -/
 namespace RV.C18
 open RV.Sketch Gen.Sketch
@@ -38,5 +45,186 @@ theorem counter_le_15 (r : Row) (n : BitVec 64) : (rowGet r n).toNat ≤ 15 :=
 example : byteOf 3#64 < (#[0xff#8, 0xe0#8] : Row).size ∧
     rowGet (rowIncrement #[0xff#8, 0xe0#8] 3#64) 3#64 = 15#8 ∧
     rowGet (rowIncrement #[0xff#8, 0xe0#8] 3#64) 2#64 = 0#8 := by decide
+
+
+/-! ## Sketch level (all `cmDepth` rows, arbitrary seeds) -/
+
+/-- `Increment h` moves the estimate of `h` to `min(old+1, 15)`: every row counter of `h`
+saturates instead of wrapping, so the minimum does. -/
+theorem sketch_increment_self (s : Sketch) (w : Sketch.WF s) (h : BitVec 64) :
+    estimate (increment s h) h = (if BitVec.ult (estimate s h) 15#8 then estimate s h + 1 else 15#8) :=
+  estimate_increment_self w h
+
+/-- Recording an access never lowers any key's estimate (whatever the row collisions). -/
+theorem sketch_increment_monotone (s : Sketch) (w : Sketch.WF s) (h k : BitVec 64) :
+    (estimate s k).toNat ≤ (estimate (increment s h) k).toNat :=
+  estimate_increment_ge w h k
+
+/-- The sketch estimate never exceeds 15. -/
+theorem sketch_estimate_le_15 (s : Sketch) (w : Sketch.WF s) (h : BitVec 64) : (estimate s h).toNat ≤ 15 :=
+  estimate_le_15 w h
+
+/-- After `n` increments of `h` (interleaved with increments of any other keys) the sketch
+estimate of `h` is at least `min(n, 15)`: the sketch never under-counts. -/
+theorem sketch_never_undercounts (s : Sketch) (w : Sketch.WF s) (h : BitVec 64) (ks : List (BitVec 64)) :
+    min (ks.count h) 15 ≤ (estimate (ks.foldl increment s) h).toNat := by
+  suffices H : ∀ (s : Sketch), Sketch.WF s →
+      min ((estimate s h).toNat + ks.count h) 15 ≤ (estimate (ks.foldl increment s) h).toNat by
+    have := H s w; omega
+  induction ks with
+  | nil => intro s _; simp; omega
+  | cons a ks ih =>
+    intro s w
+    have ih' := ih (increment s a) (WF_increment w a)
+    simp only [List.foldl_cons]
+    by_cases ha : a = h
+    · subst ha
+      have h1 := estimate_increment_self w a
+      have h2 := satIncr_toNat (estimate s a)
+      rw [← h1] at h2
+      simp only [List.count_cons_self]
+      split at h2 <;> omega
+    · have h1 := estimate_increment_ge w a h
+      have hc : (a :: ks).count h = ks.count h := by rw [List.count_cons]; simp [ha]
+      rw [hc]; omega
+
+/-- An aging reset halves the estimate, rounding down (the minimum of the independently
+halved counters is the half of the minimum). -/
+theorem sketch_reset_halves (s : Sketch) (w : Sketch.WF s) (h : BitVec 64) :
+    estimate (reset s) h = estimate s h >>> 1 :=
+  estimate_reset w h
+
+/-- `Clear` zeroes every estimate. -/
+theorem sketch_clear_zero (s : Sketch) (w : Sketch.WF s) (h : BitVec 64) : estimate (clear s) h = 0#8 :=
+  estimate_clear w h
+
+/-- `next2Power x` is the least power of two `≥ x`, for **every** `1 ≤ x ≤ 2^62` (x as the
+int64 word): it is `2^e`, `x ≤ 2^e` and `2^e < 2x`. -/
+theorem next2power_spec (x : BitVec 64) (h1 : 1 ≤ x.toNat) (h2 : x.toNat ≤ 2 ^ 62) :
+    ∃ e, e ≤ 62 ∧ (next2Power x).toNat = 2 ^ e ∧ x.toNat ≤ 2 ^ e ∧ 2 ^ e < 2 * x.toNat :=
+  next2Power_spec x h1 h2
+
+/-- The counter table of `newCmSketch(NumCounters)`, `2 ≤ NumCounters ≤ 2^62`: `cmDepth` rows of
+`2^e / 2` bytes (= `2^e` counters) and mask `2^e - 1`, `2^e` the next power of two of
+`NumCounters`; such a sketch is well formed (every masked index is inside every row). -/
+theorem sketch_size (n : BitVec 64) (seed : Array (BitVec 64)) (hs : seed.size = cmDepth.toNat)
+    (h1 : 2 ≤ n.toNat) (h2 : n.toNat ≤ 2 ^ 62) :
+    (∃ e, 1 ≤ e ∧ e ≤ 62 ∧ n.toNat ≤ 2 ^ e ∧ 2 ^ e < 2 * n.toNat ∧
+      (Sketch.new n seed).mask.toNat = 2 ^ e - 1 ∧
+      (Sketch.new n seed).rows.length = cmDepth.toNat ∧
+      ∀ r ∈ (Sketch.new n seed).rows, 2 * r.size = 2 ^ e) ∧
+    Sketch.WF (Sketch.new n seed) :=
+  ⟨new_size n seed h1 h2, Sketch.new_wf n seed hs h1 h2⟩
+
+/-! ## TinyLFU level (sketch + doorkeeper + reset counter) -/
+section TinyLFU
+open RV.TinyLFU
+
+/-- `newTinyLFU(NumCounters)` (with whatever doorkeeper parameters the float sizing produced,
+`locs ≠ 0`) is well formed and starts counting at `0 < resetAt = NumCounters`. -/
+theorem tinylfu_new (n : BitVec 64) (seed : Array (BitVec 64)) (de dl : BitVec 64)
+    (hs : seed.size = cmDepth.toNat) (h1 : 2 ≤ n.toNat) (h2 : n.toNat ≤ 2 ^ 62)
+    (hde : de.toNat ≤ 2 ^ 63) (hdl : dl ≠ 0#64) :
+    TinyLFU.WF (TinyLFU.new n seed de dl) ∧ Counting (TinyLFU.new n seed de dl) :=
+  TinyLFU.new_wf n seed de dl hs h1 h2 hde hdl
+
+/-- Well-formedness and `0 ≤ incrs < resetAt` are kept by every operation. -/
+theorem tinylfu_invariant (t : TinyLFU) (w : TinyLFU.WF t) (c : Counting t) (k : BitVec 64) :
+    TinyLFU.WF (TinyLFU.increment t k) ∧ Counting (TinyLFU.increment t k) ∧
+    TinyLFU.WF (TinyLFU.reset t) ∧ TinyLFU.WF (TinyLFU.clear t) :=
+  ⟨increment_wf w k, (increment_incrs c k).2.2, reset_wf w, clear_wf w⟩
+
+/-- Between two aging resets: after the accesses `ks` (none of which triggers the reset), the
+estimate of `k` is at least `min(n, 15)` where `n` is the number of recorded accesses of `k` —
+in fact at least `min(old + n, 16)`. -/
+theorem est_lower (t : TinyLFU) (w : TinyLFU.WF t) (k : BitVec 64) (ks : List (BitVec 64)) (q : quiet t ks) :
+    min (ks.count k) 15 ≤ est (push t ks) k ∧ min (est t k + ks.count k) 16 ≤ est (push t ks) k := by
+  have := est_lower_aux w k ks q
+  exact ⟨by omega, this⟩
+
+/-- The estimate never exceeds 16 (15 from the sketch plus the doorkeeper bit). -/
+theorem est_upper (t : TinyLFU) (w : TinyLFU.WF t) (k : BitVec 64) :
+    est t k ≤ 16 ∧ (TinyLFU.estimate t k).toInt = est t k := by
+  have h := TinyLFU.est_upper w k
+  refine ⟨h, ?_⟩
+  unfold est at h ⊢
+  rw [BitVec.toInt_eq_toNat_cond]; split <;> omega
+
+/-- An `Increment` that does not trigger the reset lowers no key's estimate. -/
+theorem est_monotone (t : TinyLFU) (w : TinyLFU.WF t) (h k : BitVec 64) (q : fires t = false) :
+    est t k ≤ est (TinyLFU.increment t h) k := by
+  rw [increment_quiet t h q]; exact touch_mono w h k
+
+/-- The aging reset: `incrs = 0`, the doorkeeper is emptied (every bit zero, `Has` false for
+every key), every counter of every row is halved independently, hence every estimate becomes
+`⌊sketch estimate / 2⌋`. -/
+theorem reset_spec (t : TinyLFU) (w : TinyLFU.WF t) :
+    (TinyLFU.reset t).incrs = 0#64 ∧ (TinyLFU.reset t).resetAt = t.resetAt ∧
+    (∀ p, RV.Bloom.bitAt (TinyLFU.reset t).door.bytes p = false) ∧
+    (∀ k, RV.Bloom.has (TinyLFU.reset t).door k = false) ∧
+    (TinyLFU.reset t).freq.rows = t.freq.rows.map rowReset ∧
+    (∀ r ∈ t.freq.rows, ∀ n : BitVec 64, n.toNat ≤ t.freq.mask.toNat → rowGet (rowReset r) n = rowGet r n >>> 1) ∧
+    (∀ k, est (TinyLFU.reset t) k = (Sketch.estimate t.freq k).toNat / 2) := by
+  refine ⟨rfl, rfl, RV.Bloom.bitAt_clear t.door, RV.Bloom.has_clear t.door w.locs, rfl, ?_, est_reset w⟩
+  intro r hr n hn
+  have := w.freq.rows r hr
+  exact get_reset r n (by rw [byteOf_eq]; omega) this.2
+
+/-- `clear()`: `incrs = 0`, doorkeeper emptied, every counter zero, every estimate zero. -/
+theorem clear_spec (t : TinyLFU) (w : TinyLFU.WF t) :
+    (TinyLFU.clear t).incrs = 0#64 ∧ (TinyLFU.clear t).resetAt = t.resetAt ∧
+    (∀ p, RV.Bloom.bitAt (TinyLFU.clear t).door.bytes p = false) ∧
+    (∀ r ∈ t.freq.rows, ∀ n : BitVec 64, n.toNat ≤ t.freq.mask.toNat → rowGet (rowClear r) n = 0#8) ∧
+    (TinyLFU.clear t).freq.rows = t.freq.rows.map rowClear ∧
+    (∀ k, est (TinyLFU.clear t) k = 0) := by
+  refine ⟨rfl, rfl, RV.Bloom.bitAt_clear t.door, ?_, rfl, est_clear w⟩
+  intro r hr n hn
+  have := w.freq.rows r hr
+  exact get_clear r n (by rw [byteOf_eq]; omega) this.2
+
+/-- The reset happens exactly at the `resetAt`-th increment: while `0 ≤ incrs < resetAt`
+an `Increment` ends with `reset()` iff `incrs + 1 = resetAt`; in particular, counting from
+`incrs = 0`, the first `resetAt - 1` increments are quiet and leave `incrs` = their number, and
+the next one fires and leaves `incrs = 0`. -/
+theorem reset_period (t : TinyLFU) (c : Counting t) :
+    fires t = decide (t.incrs.toInt + 1 = t.resetAt.toInt) ∧
+    (∀ k, TinyLFU.increment t k = if fires t then TinyLFU.reset (touch t k) else touch t k) ∧
+    (∀ ks : List (BitVec 64), t.incrs.toInt + ks.length < t.resetAt.toInt →
+      quiet t ks ∧ (push t ks).incrs.toInt = t.incrs.toInt + ks.length ∧
+      (∀ k, (fires (push t ks) = true ↔ t.incrs.toInt + ks.length + 1 = t.resetAt.toInt) ∧
+            (fires (push t ks) = true → (TinyLFU.increment (push t ks) k).incrs = 0#64))) := by
+  refine ⟨fires_iff c, fun k => ?_, fun ks hlen => ?_⟩
+  · cases h : fires t
+    · simpa using increment_quiet t k h
+    · simpa using increment_fires t k h
+  · obtain ⟨q, c', hr, hi⟩ := push_counting c ks hlen
+    refine ⟨q, hi, fun k => ⟨?_, fun hf => ?_⟩⟩
+    · rw [fires_iff c', hi, hr]; simp
+    · rw [increment_fires _ k hf]; rfl
+
+end TinyLFU
+
+/-! ### Non-vacuity (sketch and TinyLFU level) -/
+
+/-- a concrete well-formed TinyLFU (`NumCounters = 4`, doorkeeper of 512 bits and 7 locations) -/
+example : TinyLFU.WF (TinyLFU.new 4#64 #[1#64, 2#64, 3#64, 4#64] 38#64 7#64) ∧
+    RV.TinyLFU.Counting (TinyLFU.new 4#64 #[1#64, 2#64, 3#64, 4#64] 38#64 7#64) :=
+  tinylfu_new _ _ _ _ (by decide) (by decide) (by decide) (by decide) (by decide)
+
+/-- on it: three quiet accesses of key 9 give estimate 3, the 4th increment triggers the reset
+(estimate back to `⌊2/2⌋ = 1`, `incrs = 0`), and 3 accesses are not yet `resetAt = 4`. -/
+example :
+    let t := TinyLFU.new 4#64 #[1#64, 2#64, 3#64, 4#64] 38#64 7#64
+    RV.TinyLFU.quiet t [9#64, 9#64, 9#64] ∧
+    RV.TinyLFU.est (RV.TinyLFU.push t [9#64, 9#64, 9#64]) 9#64 = 3 ∧
+    RV.TinyLFU.fires (RV.TinyLFU.push t [9#64, 9#64, 9#64]) = true ∧
+    RV.TinyLFU.est (RV.TinyLFU.push t [9#64, 9#64, 9#64, 9#64]) 9#64 = 1 ∧
+    (RV.TinyLFU.push t [9#64, 9#64, 9#64, 9#64]).incrs = 0#64 := by
+  refine ⟨⟨by decide, by decide, by decide, trivial⟩, by decide, by decide, by decide, by decide⟩
+
+/-- `next2Power` on boundary values -/
+example : next2Power 1#64 = 1#64 ∧ next2Power 3#64 = 4#64 ∧ next2Power 4#64 = 4#64 ∧
+    next2Power 5#64 = 8#64 ∧ next2Power (BitVec.ofNat 64 (2 ^ 62)) = BitVec.ofNat 64 (2 ^ 62) ∧
+    next2Power (BitVec.ofNat 64 (2 ^ 61 + 1)) = BitVec.ofNat 64 (2 ^ 62) := by decide
 
 end RV.C18
